@@ -18,7 +18,7 @@ theorem removals_eq (devs : List Oci.Device) (L : List LinuxDevice) :
 /-- With distinct paths `AddDevice` after `RemoveDevice` always appends. -/
 theorem setStep_fst {st : State} (d : LinuxDevice) (h : NodupKeys Oci.Device.path st.1) :
     (setStep st d).1 = removeFirst Oci.Device.path d.path st.1 ++ [d.toOCI] := by
-  unfold setStep
+  unfold setStep addStep
   simp only
   apply addOrReplace_of_absent
   have := find_removeFirst_self Oci.Device.path (k := d.path) h
@@ -60,7 +60,7 @@ theorem sets_snd (st : State) (L : List LinuxDevice) :
       simp only [hm', Bool.false_eq_true, if_false]
       have := ih (setStep st d)
       simp only [sets] at this
-      rw [this]; simp [hm', setStep]
+      rw [this]; simp [hm', setStep, addStep]
 
 /-- The device list after the repaired `AdjustDevices`, as the generic two passes. -/
 theorem apply_fst (st : State) (L : List LinuxDevice) (h : NodupKeys Oci.Device.path st.1) :
